@@ -465,3 +465,75 @@ func c18HpackTable(c *Ctx) {
 		c.Unresolved("C18.W7", fmt.Sprintf("hpack table writers (maxSize stores=%d, size growths=%d, encoder announcements=%d)", na, nb, nc))
 	}
 }
+
+// c18WindowInitAtomic (W8): a new client stream gets its send window and becomes visible to SETTINGS in one step.
+// processSettings applies a change of SETTINGS_INITIAL_WINDOW_SIZE to the connection's registered streams and to
+// cc.initialWindowSize under cc.mu. A request goroutine creates a stream (send window := cc.initialWindowSize, in
+// newStream) and registers it in cc.streams. If the connection mutex is released between the two, a SETTINGS frame
+// handled in the gap changes initialWindowSize but not the unregistered stream: its window is stale for its whole life -
+// too large (more DATA than the peer allows) or too small (the body stalls). Clause: in every MClientConn function that
+// registers a stream, the newStream call and the insertion into streams happen with mu held and no Unlock of mu on any
+// path between them.
+func c18WindowInitAtomic(c *Ctx) {
+	pkg := "pkg/module/http2"
+	n := 0
+	ord := ordCounter{}
+	isMuUnlock := func(in ssa.Instruction) bool {
+		ci, ok := in.(ssa.CallInstruction)
+		if !ok || methodName(ci.Common()) != "Unlock" || len(ci.Common().Args) == 0 {
+			return false
+		}
+		if _, isD := in.(*ssa.Defer); isD {
+			return false
+		}
+		_, f, _, okf := fieldAddrInfo(ci.Common().Args[0])
+		return okf && f == "mu"
+	}
+	for _, fn := range c.PkgFuncs(pkg) {
+		if fn.Signature.Recv() == nil || !strings.HasSuffix(typeName(fn.Signature.Recv().Type()), "http2.MClientConn") {
+			continue
+		}
+		var regs []ssa.Instruction
+		forEachInstr(fn, false, func(_ *ssa.Function, in ssa.Instruction) {
+			if mu, ok := in.(*ssa.MapUpdate); ok {
+				if _, f, _, okf := loadedField(mu.Map); okf && f == "streams" {
+					regs = append(regs, in)
+				}
+			}
+		})
+		if len(regs) == 0 {
+			continue
+		}
+		news := callsIn(fn, false, func(cc *ssa.CallCommon) bool { return methodName(cc) == "newStream" })
+		for _, reg := range regs {
+			n++
+			key := ord.next(fn, "window-init-and-registration-atomic")
+			if len(news) != 1 {
+				c.Fail("C18.W8", key, reg.Pos(), fmt.Sprintf("a stream is registered in %s but its creation (newStream) is not in the same function (found %d calls): the checker cannot tell whether the window was set in the same critical section", fn.Name(), len(news)))
+				continue
+			}
+			mk := news[0].Instr
+			held := lockHeld(mk, "mu") && lockHeld(reg, "mu")
+			gap := existsPath(fn, mk, func(x ssa.Instruction) bool { return x == reg }, nil) != nil &&
+				func() bool {
+					for _, b := range fn.Blocks {
+						for _, u := range b.Instrs {
+							if !isMuUnlock(u) {
+								continue
+							}
+							u := u
+							if existsPath(fn, mk, func(x ssa.Instruction) bool { return x == u }, func(x ssa.Instruction) bool { return x == reg }) != nil &&
+								existsPath(fn, u, func(x ssa.Instruction) bool { return x == reg }, nil) != nil {
+								return true
+							}
+						}
+					}
+					return false
+				}()
+			c.Check("C18.W8", key, reg.Pos(), held && !gap, "stream created and registered under one hold of the connection mutex", "in "+fn.Name()+" the connection mutex is not held continuously from the creation of the stream (send window := initialWindowSize) to its registration in cc.streams: a SETTINGS_INITIAL_WINDOW_SIZE change handled in between is applied to neither, so the stream keeps a stale send window - it sends more DATA than the peer allows, or its body stalls for ever")
+		}
+	}
+	if n < 1 {
+		c.Unresolved("C18.W8", "registration of a client stream in MClientConn.streams")
+	}
+}
